@@ -397,6 +397,11 @@ func reaches(from, to, avoid *ssa.BasicBlock) bool {
 // a defer (the Return then loads them after `rundefers`); this follows such loads back to the value stored in the same block.
 func ResolvedResults(ret *ssa.Return) []ssa.Value {
 	out := make([]ssa.Value, len(ret.Results))
+	// `return fail(err)` with a trivial forwarder (a local closure or function whose single return yields only constants
+	// and its own parameters): the results are those constants and the corresponding arguments
+	if fw := forwardedResults(ret); fw != nil {
+		return fw
+	}
 	for i, rv := range ret.Results {
 		out[i] = rv
 		u, ok := rv.(*ssa.UnOp)
@@ -688,4 +693,77 @@ func accessorRoot(v ssa.Value, depth int) ssa.Value {
 		}
 	}
 	return v
+}
+
+// forwardedResults resolves `return h(args…)` where h is a trivial forwarder: one block, one return, every result a
+// constant or one of h's parameters.
+func forwardedResults(ret *ssa.Return) []ssa.Value {
+	if len(ret.Results) < 2 {
+		return nil
+	}
+	var call *ssa.Call
+	for i, rv := range ret.Results {
+		ex, ok := rv.(*ssa.Extract)
+		if !ok || ex.Index != i {
+			return nil
+		}
+		c, ok := ex.Tuple.(*ssa.Call)
+		if !ok || (call != nil && c != call) {
+			return nil
+		}
+		call = c
+	}
+	if call == nil {
+		return nil
+	}
+	var h *ssa.Function
+	if f := call.Call.StaticCallee(); f != nil {
+		h = f
+	} else if mc, ok := call.Call.Value.(*ssa.MakeClosure); ok {
+		h, _ = mc.Fn.(*ssa.Function)
+	} else if u, ok := call.Call.Value.(*ssa.UnOp); ok && u.Op == token.MUL {
+		// closure held in a local cell with a single store
+		if al, ok := u.X.(*ssa.Alloc); ok && al.Referrers() != nil {
+			n := 0
+			for _, ref := range *al.Referrers() {
+				if st, ok := ref.(*ssa.Store); ok && st.Addr == ssa.Value(al) {
+					n++
+					if mc, ok := st.Val.(*ssa.MakeClosure); ok {
+						h, _ = mc.Fn.(*ssa.Function)
+					}
+				}
+			}
+			if n != 1 {
+				h = nil
+			}
+		}
+	}
+	if h == nil || len(h.Blocks) != 1 {
+		return nil
+	}
+	hret, ok := h.Blocks[0].Instrs[len(h.Blocks[0].Instrs)-1].(*ssa.Return)
+	if !ok || len(hret.Results) != len(ret.Results) {
+		return nil
+	}
+	out := make([]ssa.Value, len(ret.Results))
+	for i, rv := range hret.Results {
+		switch x := rv.(type) {
+		case *ssa.Const:
+			out[i] = x
+		case *ssa.Parameter:
+			idx := -1
+			for k, p := range h.Params {
+				if p == x {
+					idx = k
+				}
+			}
+			if idx < 0 || idx >= len(call.Call.Args) {
+				return nil
+			}
+			out[i] = call.Call.Args[idx]
+		default:
+			return nil
+		}
+	}
+	return out
 }
